@@ -245,6 +245,7 @@ package monoid
 //
 //@ lemma evalDef[T any](m fp.Monoid[T], x T, y T)
 //@   prop C11
+//@   option unroll=exact
 //@   ensures Eq(Eval(m).Empty().Get(), m.Empty())
 //@   tag empty
 //@   ensures Eq(Eval(m).Combine(lazy.Done(x), lazy.Done(y)).Get(), m.Combine(x, y))
@@ -252,6 +253,7 @@ package monoid
 //
 //@ lemma evalLaws[T any](m fp.Monoid[T], x T, y T, z T)
 //@   prop C11
+//@   option unroll=exact
 //@   requires veriflaws.MonoidLaws(m)
 //@   ensures Eq(Eval(m).Combine(Eval(m).Combine(lazy.Done(x), lazy.Done(y)), lazy.Done(z)).Get(), Eval(m).Combine(lazy.Done(x), Eval(m).Combine(lazy.Done(y), lazy.Done(z))).Get())
 //@   tag assoc
